@@ -26,7 +26,7 @@ class C09(Prop):
                 "NV.C09.slot_search_as_modelled", "NV.C09.process_io_as_modelled", "NV.C09.remove_tests_as_modelled",
                 "NV.C09.apply_sites_as_modelled", "NV.C09.no_new_unprotected_apply_site", "NV.C09.guards_present", "NV.C09.apply_touch_as_modelled",
                 "NV.C09.input_to_call_as_modelled", "NV.C09.set_call_as_modelled", "NV.C09.prompt_as_modelled",
-                "NV.C09.command_branches_as_modelled", "NV.C09.preload_as_modelled", "NV.C09.reset_object_as_modelled", "NV.C09.error_handler_stmts_as_modelled",
+                "NV.C09.command_branches_as_modelled", "NV.C09.preload_as_modelled", "NV.C09.reset_object_as_modelled", "NV.C09.set_snoop_as_modelled", "NV.C09.error_handler_stmts_as_modelled",
                 "NV.C09.batch_any_order_good", "NV.C09.stale_event_skipped", "NV.C09.freed_record_events_are_stale",
                 "NV.C09.accept_serial_fresh", "NV.C09.applyAction_resolved", "NV.C09.pending_entry_older_than_any_accept",
                 "NV.C09.abandoned_suffix", "NV.C09.abandoned_nil_of_ok", "NV.C09.findConn_id",
@@ -311,6 +311,10 @@ class C09(Prop):
             ("return", r"return;"), ("epilog", r"apply_master_ob \(APPLY_EPILOG"), ("next_file", r"ix\+\+;"),
             ("loop", r"for \(; ix < prefiles->size; ix\+\+\)"), ("preload", r"apply_master_ob \(APPLY_PRELOAD")]) + \
             conds_and_updates(b, ["ix", "prefiles"])
+        b = body_of(comm, r"\nint new_set_snoop \(object_t \* me, object_t \* you\)\s*\{")
+        if b is None:
+            raise X.TieBroken("new_set_snoop()", "cannot locate new_set_snoop()")
+        cmp_sites["snoopStmts"] = conds_and_updates(b, ["snoop_on", "snoop_by", "O_DESTRUCTED"])
         objc = open(os.path.join(E.REPO, "lib/lpc/object.c")).read()
         b = body_of(objc, r"\nvoid reset_object \(object_t \* ob\)\s*\{")
         if b is None:
